@@ -69,7 +69,7 @@ Definition row_ok (n : nat) (knn_i knn_d : list (list Z)) (vorder : list Z) (max
   forallb (fun o => match o with Some _ => true | None => false end) lens &&
   (* degree bound: at most maxdeg edges strictly shorter than the longest kept one *)
   (let ls := flat_map (fun o => match o with Some d => [d] | None => [] end) lens in
-   let mx := fold_right Z.max 0 ls in
+   let mx := fold_right Z.max (hd 0 ls) ls in
    (length (filter (fun d => (d <? mx)%Z) ls) <=? maxdeg)%nat) &&
   (* a point that lists a neighbour keeps an edge at least as short as its nearest listed one *)
   (match first_other u (getRow knn_i (zidx u)) (getRow knn_d (zidx u)) with
